@@ -181,4 +181,7 @@ def Table.WF (T : Table) : Prop :=
   (∀ o ∈ T.opts, ValidName o.name ∧ NulFree o.name) ∧
   T.opts.Pairwise (fun earlier later => matchOpt earlier later.name = none)
 
+/-- no `=` in a long option name (a single-character option may be `-=`) -/
+def EqFreeLong (n : Str) : Prop := 2 < n.length → eqc ∉ n
+
 end Percival.Spec.Getopt
